@@ -100,6 +100,14 @@ impl Net {
     pub fn any_wedged() -> bool { WEDGED.load(Ordering::SeqCst) }
 }
 
+/// stock tungstenite server handshake on an accepted stream, with read/write timeouts: a node
+/// that never sends or completes its handshake must not hang the harness
+pub fn ws_accept(s: TcpStream) -> Result<tungstenite::WebSocket<TcpStream>, tungstenite::HandshakeError<tungstenite::ServerHandshake<TcpStream, tungstenite::handshake::server::NoCallback>>> {
+    let _ = s.set_read_timeout(Some(Duration::from_secs(5)));
+    let _ = s.set_write_timeout(Some(Duration::from_secs(5)));
+    tungstenite::accept(s)
+}
+
 pub fn payload(tag: u64, len: usize) -> Vec<u8> {
     // self-describing: content depends on (tag, position); first bytes look like prefixes on purpose
     let mut r = Rng::new(tag.wrapping_mul(0x9E37_79B9).wrapping_add(len as u64));
@@ -428,15 +436,15 @@ pub fn run_tcp(a: &Args) {
     out.finish();
 }
 
-/// a slow consumer: the callback takes 35 ms per Message while the peer has already sent everything
+/// a slow consumer: the callback takes 120 ms per Message while the peer has already sent everything
 /// and then stays silent; every byte / message still arrives, in order, without further traffic
 pub fn slow_consumer(t: Transport, out: &mut Out) {
-    mark_scenario(out, &format!("{:?}: a raw peer sends everything at once and goes silent; the node's callback takes 35 ms per Message", t));
-    let node = Net::with_opts(None, 35);
+    mark_scenario(out, &format!("{:?}: a raw peer sends everything at once and goes silent; the node's callback takes 120 ms per Message", t));
+    let node = Net::with_opts(None, 120);
     let (_lid, addr) = node.ctl.listen(t, "127.0.0.1:0").unwrap();
     let (wire, expect_msgs, expect_bytes): (Vec<u8>, Vec<Vec<u8>>, Vec<u8>) = match t {
-        Transport::Tcp => { let d = payload(61, 1 << 20); (d.clone(), vec![], d) }
-        _ => { let ms: Vec<Vec<u8>> = (0..24).map(|i| payload(70 + i, 3000 + 40_000 * (i as usize % 2))).collect();
+        Transport::Tcp => { let d = payload(61, 640 << 10); (d.clone(), vec![], d) }
+        _ => { let ms: Vec<Vec<u8>> = (0..10).map(|i| payload(70 + i, 3000 + 60_000 * (i as usize % 2))).collect();
                (ms.iter().flat_map(|m| { let mut f = leb128(m.len() as u64); f.extend_from_slice(m); f }).collect(), ms, vec![]) }
     };
     let mut s = TcpStream::connect(addr).unwrap();
@@ -447,7 +455,7 @@ pub fn slow_consumer(t: Transport, out: &mut Out) {
     let got: Vec<Vec<u8>> = node.snapshot().into_iter().filter_map(|e| if let Ev::Message(_, d) = e { Some(d) } else { None }).collect();
     let intact = if t == Transport::Tcp { got.concat() == expect_bytes } else { got == expect_msgs };
     if !ok || !intact {
-        out.violation(&format!("[C11,C01] {:?}, slow consumer (35 ms per Message), peer silent after sending {} bytes: {} Message events with {} bytes delivered within 16 s, complete and unchanged: {}", t, wire.len(), got.len(), got.iter().map(|d| d.len()).sum::<usize>(), intact));
+        out.violation(&format!("[C11,C01] {:?}, slow consumer (120 ms per Message), peer silent after sending {} bytes: {} Message events with {} bytes delivered within 16 s, complete and unchanged: {}", t, wire.len(), got.len(), got.iter().map(|d| d.len()).sum::<usize>(), intact));
     }
     out.count("slow_consumer");
     out.case(&format!("slowconsumer {:?}", t), &format!("{}", intact));
@@ -865,7 +873,7 @@ pub fn run_ws(a: &Args) {
         let addr = listener.local_addr().unwrap();
         let server = std::thread::spawn(move || {
             let (s, _) = listener.accept().unwrap();
-            let mut ws = tungstenite::accept(s).expect("stock server handshake");
+            let mut ws = ws_accept(s).expect("stock server handshake");
             // burst to the node, then read what it sends
             let burst: Vec<Vec<u8>> = (0..9).map(|i| payload(i + 900, (i as usize) * 4000)).collect();
             for m in &burst { ws.write(WsMessage::Binary(m.clone().into())).unwrap(); }
@@ -1197,7 +1205,7 @@ pub fn run_life(a: &Args) {
                 let (s, _) = l.accept().unwrap();
                 if t == Transport::Ws {
                     // a websocket needs its handshake: answer it with a stock server, then end the connection
-                    match tungstenite::accept(s) { Ok(ws) => { std::thread::sleep(Duration::from_millis(20)); let s2 = ws.get_ref().try_clone().unwrap(); if rst { socket2::SockRef::from(&s2).set_linger(Some(Duration::ZERO)).ok(); } drop(ws); drop(s2); } Err(_) => {} }
+                    match ws_accept(s) { Ok(ws) => { std::thread::sleep(Duration::from_millis(20)); let s2 = ws.get_ref().try_clone().unwrap(); if rst { socket2::SockRef::from(&s2).set_linger(Some(Duration::ZERO)).ok(); } drop(ws); drop(s2); } Err(_) => {} }
                 } else {
                     std::thread::sleep(Duration::from_millis(10));
                     if rst { socket2::SockRef::from(&s).set_linger(Some(Duration::ZERO)).ok(); }
@@ -1243,7 +1251,7 @@ pub fn run_life(a: &Args) {
                 let (mut s, _) = l.accept().unwrap();
                 // (for Ws the handshake is answered by a stock server on a clone of the socket, kept
                 // alive until the end of this scenario)
-                let _ws_keep = if t == Transport::Ws { Some(tungstenite::accept(s.try_clone().unwrap())) } else { None };
+                let _ws_keep = if t == Transport::Ws { Some(ws_accept(s.try_clone().unwrap())) } else { None };
                 node.wait(3000, |ev| ev.iter().any(|e| matches!(e, Ev::Connected(e2, true) if *e2 == ep)));
                 let r1 = node.ctl.remove(ep.resource_id());
                 let r2 = node.ctl.remove(ep.resource_id());
@@ -1295,6 +1303,9 @@ pub fn run_life(a: &Args) {
                     ];
                     for (fi, f) in frames.iter().enumerate() {
                         if let Ok(stream) = TcpStream::connect(addr) {
+                            // (a node that no longer answers handshakes must not hang the harness)
+                            let _ = stream.set_read_timeout(Some(Duration::from_secs(2)));
+                            let _ = stream.set_write_timeout(Some(Duration::from_secs(2)));
                             if let Ok((mut ws, _)) = tungstenite::client(format!("ws://{}/x", addr), stream) {
                                 let raw = ws.get_mut();
                                 let _ = raw.write_all(f);
@@ -1331,6 +1342,90 @@ pub fn run_life(a: &Args) {
             node.ctl.remove(lid);
             out.case(&format!("life {:?} rep {}", t, rep), &format!("fds {}", fd_now as i64 - fd_base as i64));
             if node.shutdown() { out.violation(&format!("[C17] {:?}: event processing panicked or never came back from a poll (wedged: {}) after serving hostile peers", t, Net::any_wedged())); }
+        }
+        // 5b. many inbound connections queued before the node looks at its listener: one Accepted each
+        for t in [Transport::Tcp, Transport::FramedTcp] {
+            mark_scenario(&out, &format!("net_life {:?}: 300 clients connect and send a greeting before the node polls its listener for the first time", t));
+            let (ctl, mut processor) = network::split();
+            let (lid, addr) = ctl.listen(t, "127.0.0.1:0").unwrap();
+            let n = 300usize;
+            let clients: Vec<TcpStream> = (0..n).filter_map(|i| { let mut c = TcpStream::connect(addr).ok()?; let mut w = vec![]; if t == Transport::FramedTcp { w.push(5u8); } w.extend(format!("hi{:03}", i).as_bytes()); c.write_all(&w).ok()?; Some(c) }).collect();
+            std::thread::sleep(Duration::from_millis(50));
+            let (mut accepted, mut greeted) = (0usize, 0usize);
+            let end = Instant::now() + Duration::from_millis(3000);
+            while Instant::now() < end && (accepted < clients.len() || greeted < clients.len()) {
+                processor.process_poll_event(Some(Duration::from_millis(30)), |e| match e { NetEvent::Accepted(_, l) if l == lid => accepted += 1, NetEvent::Message(_, d) if d.len() == 5 => greeted += 1, _ => {} });
+            }
+            if accepted != clients.len() || greeted != clients.len() { out.violation(&format!("[C03,C01] {:?}: {} clients connected and greeted before the listener was polled, then nobody else connected: {} Accepted events, {} greetings delivered", t, clients.len(), accepted, greeted)); }
+            out.count("life_accept_backlog");
+            out.case(&format!("life backlog {:?} rep {}", t, rep), &format!("{} {}", accepted, greeted));
+            drop(clients);
+            ctl.remove(lid);
+            for _ in 0..20 { processor.process_poll_event(Some(Duration::from_millis(5)), |_| ()); }
+        }
+        // 5c. slow but correct WebSocket handshakes: the upgrade request / the 101 response arrive in
+        //     two TCP segments with the node running in between
+        {
+            mark_scenario(&out, "net_life Ws: the upgrade request of a hand-written client arrives in two halves 60 ms apart; then a masked frame");
+            let node = Net::new();
+            let (lid, addr) = node.ctl.listen(Transport::Ws, "127.0.0.1:0").unwrap();
+            let mut c = TcpStream::connect(addr).unwrap();
+            c.set_read_timeout(Some(Duration::from_secs(3))).unwrap();
+            let me = c.local_addr().unwrap();
+            let req = format!("GET /x HTTP/1.1\r\nHost: {}\r\nUpgrade: websocket\r\nConnection: Upgrade\r\nSec-WebSocket-Key: dGhlIHNhbXBsZSBub25jZQ==\r\nSec-WebSocket-Version: 13\r\n\r\n", addr);
+            let half = req.len() / 2;
+            c.write_all(&req.as_bytes()[..half]).unwrap();
+            std::thread::sleep(Duration::from_millis(60));
+            let early = node.snapshot().len();
+            c.write_all(&req.as_bytes()[half..]).unwrap();
+            let mut resp = vec![]; let mut b = [0u8; 512];
+            while !resp.windows(4).any(|w| w == b"\r\n\r\n") { match c.read(&mut b) { Ok(0) | Err(_) => break, Ok(k) => resp.extend_from_slice(&b[..k]) } }
+            let switched = resp.starts_with(b"HTTP/1.1 101");
+            let mask = [1u8, 2, 3, 4];
+            let mut frame = vec![0x82, 0x85]; frame.extend(mask); frame.extend(b"hello".iter().enumerate().map(|(i, x)| x ^ mask[i % 4]));
+            c.write_all(&frame).unwrap();
+            let okm = node.wait(3000, |ev| ev.iter().any(|e| matches!(e, Ev::Message(ep, d) if ep.addr() == me && d == b"hello")));
+            drop(c);
+            let okd = node.wait(3000, |ev| ev.iter().any(|e| matches!(e, Ev::Disconnected(ep) if ep.addr() == me)));
+            let evs: Vec<Ev> = node.snapshot();
+            let shape = matches!(evs.first(), Some(Ev::Accepted(ep, l)) if ep.addr() == me && *l == lid);
+            if node.panicked() || early != 0 || !switched || !okm || !okd || !shape {
+                out.violation(&format!("[C03,C17] Ws listener, upgrade request in two segments: processing panicked: {}, events before the request was complete: {}, 101 answered: {}, Accepted first: {}, the client's frame delivered: {}, Disconnected after its close: {}", node.panicked(), early, switched, shape, okm, okd));
+            }
+            lifecycle_check("Ws split request", &evs, &[], &[lid], &mut out);
+            out.count("life_ws_split_request");
+            out.case(&format!("life ws split request rep {}", rep), "ok");
+            if node.shutdown() { out.violation("[C17,C03] Ws: event processing panicked or wedged on a handshake that arrived in two segments"); }
+        }
+        {
+            mark_scenario(&out, "net_life Ws: the 101 response of a hand-written server arrives in two halves 60 ms apart; then an unmasked frame");
+            let l = TcpListener::bind("127.0.0.1:0").unwrap();
+            let node = Net::new();
+            let (ep, _) = node.ctl.connect(Transport::Ws, l.local_addr().unwrap()).unwrap();
+            let (mut sconn, _) = l.accept().unwrap();
+            sconn.set_read_timeout(Some(Duration::from_secs(3))).unwrap();
+            let mut reqb = vec![]; let mut b = [0u8; 1024];
+            while !reqb.windows(4).any(|w| w == b"\r\n\r\n") { match sconn.read(&mut b) { Ok(0) | Err(_) => break, Ok(k) => reqb.extend_from_slice(&b[..k]) } }
+            let reqs = String::from_utf8_lossy(&reqb).to_string();
+            let key = reqs.lines().find_map(|l| { let (k, v) = l.split_once(':')?; if k.eq_ignore_ascii_case("sec-websocket-key") { Some(v.trim().to_string()) } else { None } }).unwrap_or_default();
+            let resp = format!("HTTP/1.1 101 Switching Protocols\r\nUpgrade: websocket\r\nConnection: Upgrade\r\nSec-WebSocket-Accept: {}\r\n\r\n", tungstenite::handshake::derive_accept_key(key.as_bytes()));
+            let half = resp.len() / 2;
+            let _ = sconn.write_all(&resp.as_bytes()[..half]);
+            std::thread::sleep(Duration::from_millis(60));
+            let early = node.snapshot().len();
+            let _ = sconn.write_all(&resp.as_bytes()[half..]);
+            let okc = node.wait(3000, |ev| ev.iter().any(|e| matches!(e, Ev::Connected(e2, true) if *e2 == ep)));
+            let _ = sconn.write_all(&[0x82, 0x02, b'h', b'i']);
+            let okm = node.wait(3000, |ev| ev.iter().any(|e| matches!(e, Ev::Message(e2, d) if *e2 == ep && d == b"hi")));
+            drop(sconn);
+            let okd = node.wait(3000, |ev| ev.iter().any(|e| matches!(e, Ev::Disconnected(e2) if *e2 == ep)));
+            if node.panicked() || early != 0 || !okc || !okm || !okd {
+                out.violation(&format!("[C03,C17] Ws connect, 101 response in two segments: processing panicked: {}, events before the response was complete: {}, Connected(true): {}, the server's frame delivered: {}, Disconnected after its close: {}", node.panicked(), early, okc, okm, okd));
+            }
+            lifecycle_check("Ws split response", &node.snapshot(), &[ep], &[], &mut out);
+            out.count("life_ws_split_response");
+            out.case(&format!("life ws split response rep {}", rep), "ok");
+            if node.shutdown() { out.violation("[C17,C03] Ws: event processing panicked or wedged on a handshake response that arrived in two segments"); }
         }
         // 6. socket options: a keepalive the OS accepts (60 s) and one it rejects (12 h: Linux takes
         //    TCP_KEEPIDLE only up to 32767 s; documented as "just a warning").  Either way the
@@ -1519,7 +1614,7 @@ pub fn run_sync(a: &Args) {
                 std::thread::sleep(Duration::from_millis(delay));
                 let mut keep_ws = None;
                 let mut s2 = s.try_clone().unwrap();
-                if t == Transport::Ws { keep_ws = tungstenite::accept(s).ok(); }
+                if t == Transport::Ws { keep_ws = ws_accept(s).ok(); }
                 // read whatever the node sends for a while, then close
                 s2.set_read_timeout(Some(Duration::from_millis(600))).unwrap();
                 let mut buf = [0u8; 4096];
@@ -1558,7 +1653,7 @@ pub fn run_sync(a: &Args) {
             let la = l.local_addr().unwrap();
             let peer = std::thread::spawn(move || {
                 let (s, _) = l.accept().unwrap();
-                if t == Transport::Ws { if let Ok(ws) = tungstenite::accept(s) { drop(ws); } } else { drop(s); }
+                if t == Transport::Ws { if let Ok(ws) = ws_accept(s) { drop(ws); } } else { drop(s); }
             });
             let node = Net::new();
             let r = node.ctl.connect_sync(t, la);
@@ -1586,6 +1681,29 @@ pub fn run_sync(a: &Args) {
             if node.shutdown() { out.violation("[C17,C03] event processing panicked"); }
         }
         out.add(if k1_seen { "k1_observed" } else { "k1_not_observed" }, 1);
+    }
+    // (deep search / thorough) a connection that takes 6.5 s to get established: connect_sync waits, then Ok
+    if a.thorough || a.rest.iter().any(|x| x == "slow") {
+        mark_scenario(&out, "net_sync: a Ws server whose processor is pumped only after 6.5 s: connect_sync must wait and then answer Ok");
+        let (sctl, mut sproc) = network::split();
+        let (_l, addr) = sctl.listen(Transport::Ws, "127.0.0.1:0").unwrap();
+        let stop = Arc::new(AtomicBool::new(false));
+        let pump = { let stop = stop.clone(); std::thread::spawn(move || { std::thread::sleep(Duration::from_millis(6500)); while !stop.load(Ordering::SeqCst) { sproc.process_poll_event(Some(Duration::from_millis(10)), |_| ()); } }) };
+        let node = Net::new();
+        let t0 = Instant::now();
+        let r = node.ctl.connect_sync(Transport::Ws, addr);
+        let took = t0.elapsed();
+        std::thread::sleep(Duration::from_millis(200));
+        let established = node.snapshot().iter().any(|e| matches!(e, Ev::Connected(_, true)));
+        match &r {
+            Ok((ep, _)) => { if node.ctl.is_ready(ep.resource_id()) != Some(true) || took < Duration::from_millis(6000) { out.violation(&format!("[C03] connect_sync answered Ok after {:?} although the peer only answers after 6.5 s (is_ready {:?})", took, node.ctl.is_ready(ep.resource_id()))); } }
+            Err(e) => out.violation(&format!("[C03] connect_sync against a peer that completes the handshake after 6.5 s answered Err({:?}) after {:?}; Connected(_, true) delivered afterwards: {} (Ok exactly when the connection gets established; ConnectionRefused otherwise)", e.kind(), took, established)),
+        }
+        stop.store(true, Ordering::SeqCst);
+        let _ = pump.join();
+        out.count("sync_very_slow_peer");
+        out.case("sync veryslow ws", &format!("{}", r.is_ok()));
+        if node.shutdown() { out.violation("[C17,C03] event processing panicked"); }
     }
     // Udp: always Ok, ready, exactly one Connected(true)
     for rep in 0..reps.min(6) {
